@@ -593,7 +593,12 @@ impl Machine for RingMachine {
             }
             ops.push(Op::Replay { slot: i as u8, resigned: false });
             ops.push(Op::Replay { slot: i as u8, resigned: true });
-            if s.v2 && st.reuse_used < self.max_reuse {
+            // (only while a root window that overlaps the subintent's window still passes static validation)
+            let reusable = s.child.as_ref().map_or(false, |(c, _)| {
+                let (rs, re) = reuse_root_window(st.now, c);
+                re - rs <= SCALED_RANGE
+            });
+            if s.v2 && reusable && st.reuse_used < self.max_reuse {
                 ops.push(Op::ReuseSub { slot: i as u8, root_fails: false });
                 // a transaction that must be rejected never starts executing: its manifest is irrelevant
                 let probe = Op::ReuseSub { slot: i as u8, root_fails: true };
@@ -839,6 +844,7 @@ fn layer2(ctx: &Ctx) -> (BfsStats, Value) {
     }
     ctx.merge(l);
     let n_items = fine.len();
+    // wall cap of the exploration (MC_CAP_S overrides it for development runs on a loaded machine)
     let cap = std::env::var("MC_CAP_S").ok().and_then(|s| s.parse().ok()).unwrap_or(ctx.pick(50.0, 1150.0));
     let mut stats = explore_all(ctx, &scanning, fine, &op_code, cap);
     // explore_item counts each item's start state; they were counted in first_layer already
@@ -1076,59 +1082,13 @@ fn replay(ctx: Ctx) -> ! {
 }
 
 
-fn probe() {
-    use std::time::Instant as T;
-    let m = RingMachine::new(false);
-    let mut st = m.init();
-    let n = 300;
-    let t = T::now();
-    for _ in 0..n { let _ = m.fork(&st).unwrap(); }
-    println!("fork: {:.3} ms", t.elapsed().as_secs_f64() * 1000.0 / n as f64);
-    let t = T::now();
-    for _ in 0..n { let _ = st.sim.create_snapshot(); }
-    println!("create_snapshot: {:.3} ms", t.elapsed().as_secs_f64() * 1000.0 / n as f64);
-    let snap = st.sim.create_snapshot();
-    let t = T::now();
-    for _ in 0..n { let _ = LedgerSimulatorBuilder::new().without_kernel_trace().build_from_snapshot(snap.clone()); }
-    println!("build_from_snapshot(clone): {:.3} ms", t.elapsed().as_secs_f64() * 1000.0 / n as f64);
-    let t = T::now();
-    for _ in 0..n { let _ = m.fingerprint(&st); }
-    println!("fingerprint: {:.3} ms", t.elapsed().as_secs_f64() * 1000.0 / n as f64);
-    let t = T::now();
-    for _ in 0..n { m.step(&mut st, &Op::NextEpoch).unwrap(); }
-    println!("next_epoch: {:.3} ms", t.elapsed().as_secs_f64() * 1000.0 / n as f64);
-    let t = T::now();
-    for _ in 0..n { st.slots.clear(); st.commits_used = 0; st.reuse_used = 0; m.step(&mut st, &Op::V1 { s_off: 0, len: 6, fail: false }).unwrap(); }
-    println!("v1 commit: {:.3} ms", t.elapsed().as_secs_f64() * 1000.0 / n as f64);
-    let t = T::now();
-    for _ in 0..n { m.step(&mut st, &Op::Replay { slot: 0, resigned: false }).unwrap(); }
-    println!("replay identical: {:.3} ms", t.elapsed().as_secs_f64() * 1000.0 / n as f64);
-    let t = T::now();
-    for _ in 0..n { m.step(&mut st, &Op::Replay { slot: 0, resigned: true }).unwrap(); }
-    println!("replay resigned: {:.3} ms", t.elapsed().as_secs_f64() * 1000.0 / n as f64);
-    let t = T::now();
-    for _ in 0..n { st.slots.clear(); st.commits_used = 0; st.reuse_used = 0; m.step(&mut st, &Op::V2 { r_off: 0, r_len: 1, c_off: 0, c_len: 6, root_fails: true }).unwrap(); }
-    println!("v2 commit: {:.3} ms", t.elapsed().as_secs_f64() * 1000.0 / n as f64);
-    let t = T::now();
-    for _ in 0..n { st.reuse_used = 0; m.step(&mut st, &Op::ReuseSub { slot: 0, root_fails: true }).unwrap(); }
-    println!("reuse sub (commit failure): {:.3} ms", t.elapsed().as_secs_f64() * 1000.0 / n as f64);
-    let t = T::now();
-    for _ in 0..n { let _ = m.scan_ring(&st); }
-    println!("scan_ring: {:.3} ms", t.elapsed().as_secs_f64() * 1000.0 / n as f64);
-}
-
 pub fn run(ctx: Ctx) -> ! {
     if ctx.replay.is_some() {
         replay(ctx);
     }
-    if std::env::var("MC_PROBE").is_ok() {
-        probe();
-        std::process::exit(0);
-    }
     let (l1_evals, l1_detail) = layer1(&ctx);
     let t1 = ctx.elapsed_s();
-    // development switch (never set by ./check): skip layer 2 to exercise the other layers alone
-    let (stats, l2_detail) = if std::env::var("MC_SKIP_L2").is_ok() { (BfsStats::default(), json!("skipped (MC_SKIP_L2)")) } else { layer2(&ctx) };
+    let (stats, l2_detail) = layer2(&ctx);
     let t2 = ctx.elapsed_s();
     let l3_detail = if ctx.quick() { json!("thorough tier only") } else { layer3(&ctx) };
     let t3 = ctx.elapsed_s();
